@@ -226,6 +226,115 @@ pub fn seq_case(rng: &mut Rng, id: String, max: usize, nmembers: usize) -> Case 
     case
 }
 
+/// `k` members become ready at the same time — traffic queued before the first select, on members added before or after the
+/// traffic — and then nothing more happens: every select must report something until everything has been reported (at most
+/// the events buffer's worth of members per call), then the senders go away and every member reports exactly one closure.
+/// Going quiet matters: with edge-triggered readiness a batch that is lost is never reported again.
+pub fn many_ready_case(rng: &mut Rng, id: String, max: usize, k: usize) -> Case {
+    let mut case = Case::new(id.clone());
+    let _g = ip::install(Ctx::new(0));
+    let mut set = OsIpcReceiverSet::new().unwrap();
+    let mut txs: Vec<Option<OsIpcSender>> = Vec::new();
+    let mut ids: Vec<u64> = Vec::new();
+    let mut ops: Vec<String> = Vec::new();
+    let mut seen: Vec<Vec<String>> = vec![Vec::new(); k];
+    let mut expect_n = vec![0usize; k];
+    let mut tag = 0u64;
+    let before = rng.chance(1, 2);
+    let mut rxs = Vec::new();
+    for i in 0..k {
+        let (tx, rx) = platform::channel().unwrap();
+        ops.push(format!("new {}", i));
+        txs.push(Some(tx));
+        rxs.push(Some(rx));
+    }
+    let mut send_all = |ops: &mut Vec<String>, txs: &Vec<Option<OsIpcSender>>, tag: &mut u64, expect_n: &mut Vec<usize>, rng: &mut Rng| {
+        for i in 0..k {
+            let n = 1 + rng.below(3) as usize;
+            for _ in 0..n {
+                *tag += 1;
+                txs[i].as_ref().unwrap().send(&msg(*tag, false, max), vec![], vec![]).unwrap();
+                ops.push(format!("send {} {}", i, *tag));
+                expect_n[i] += 1;
+            }
+        }
+    };
+    if before {
+        send_all(&mut ops, &txs, &mut tag, &mut expect_n, rng);
+    }
+    for i in 0..k {
+        ids.push(set.add(rxs[i].take().unwrap()).unwrap());
+        ops.push(format!("add {}", i));
+    }
+    if !before {
+        send_all(&mut ops, &txs, &mut tag, &mut expect_n, rng);
+    }
+    let mut closed = vec![false; k];
+    for phase in 0..2 {
+        let mut rounds = 0;
+        loop {
+            let pending = (0..k).any(|i| if phase == 0 { seen[i].len() < expect_n[i] } else { !closed[i] });
+            if !pending || rounds > 4 * k + 8 || case.oracle.is_some() {
+                break;
+            }
+            rounds += 1;
+            arm(&id, &ops, 8);
+            let r = set.select();
+            disarm();
+            match r {
+                Ok(rs) => {
+                    if rs.is_empty() {
+                        case.fail(format!("select returned no event although {} members had something to report", (0..k).filter(|i| if phase == 0 { seen[*i].len() < expect_n[*i] } else { !closed[*i] }).count()));
+                    }
+                    for r in rs {
+                        match r {
+                            OsIpcSelectionResult::DataReceived(id, d, _, _) => match ids.iter().position(|x| *x == id) {
+                                Some(i) => seen[i].push(tag_of(&d, max).map(|t| t.to_string()).unwrap_or("?".into())),
+                                None => case.fail(format!("event for unknown id {}", id)),
+                            },
+                            OsIpcSelectionResult::ChannelClosed(id) => match ids.iter().position(|x| *x == id) {
+                                Some(i) => {
+                                    if closed[i] {
+                                        case.fail(format!("member {} reported closed twice", i));
+                                    }
+                                    if phase == 0 {
+                                        case.fail(format!("member {} reported closed while its sender exists", i));
+                                    }
+                                    closed[i] = true;
+                                    seen[i].push("c".into());
+                                },
+                                None => case.fail(format!("closed event for unknown id {}", id)),
+                            },
+                        }
+                    }
+                    ops.push("select".into());
+                },
+                Err(e) => case.fail(format!("select failed: {:?}", e)),
+            }
+        }
+        if phase == 0 {
+            for i in 0..k {
+                txs[i] = None;
+                ops.push(format!("dropsender {}", i));
+            }
+        }
+    }
+    for i in 0..k {
+        if seen[i].len() != expect_n[i] + 1 && case.oracle.is_none() {
+            case.fail(format!("member {} reported {} events where {} messages and one closure are due", i, seen[i].len(), expect_n[i]));
+        }
+    }
+    let per: Vec<String> = (0..k).map(|i| format!("m{}={}", i, if seen[i].is_empty() { "-".into() } else { seen[i].join(",") })).collect();
+    let idl: Vec<String> = ids.iter().enumerate().map(|(i, v)| format!("{}:{}", i, v)).collect();
+    case.pair(format!("set | {}", ops.join(" | ")), format!("{} ids={} blocked=0", per.join(" "), idl.join(",")));
+    case.nontrivial = true;
+    case.key = format!("many:{}:{}", k, ops.len());
+    case.tags.push(format!("members={}", k / 4 * 4));
+    case.tags.push(format!("ready_at_once={}", k));
+    case.tags.push(format!("traffic_before_add={}", before as u8));
+    case
+}
+
 pub fn run(args: &[String]) {
     let sys_arg = arg_u64(args, "--sys", 4608) as usize;
     ip::SPOOF_SNDBUF.store(sys_arg, Ordering::SeqCst);
@@ -238,5 +347,12 @@ pub fn run(args: &[String]) {
     for i in 0..n {
         let nm = if i % 5 == 4 { 30 } else { 6 };
         seq_case(&mut rng, format!("set-{}", i), max, nm).emit();
+    }
+    // many members ready at once, around and beyond the events buffer (10), then silence
+    let ks: &[usize] = if thorough { &[1, 9, 10, 11, 19, 20, 21, 24, 40, 64, 100] } else { &[9, 10, 11, 24, 64] };
+    for (j, k) in ks.iter().enumerate() {
+        for rep in 0..2 {
+            many_ready_case(&mut rng, format!("set-many-{}-{}", j, rep), max, *k).emit();
+        }
     }
 }
